@@ -115,12 +115,38 @@ def run_both(drv, case):
         except Exception as e:
             io["back" if io["body"] is not None else "body"] = alpha.exc_kind(e)
     io["src"] = src
+    # the same object through the public entry points: `save(path, obj)` (the object itself is the argument) and `read`
+    import os
+    obj = pl if case["kind"] == "pl" else pla
+    if obj._root is None:
+        p = common.fresh_path()
+        try:
+            with common.quiet():
+                emdfile.save(p, obj, mode="w")
+            if not os.path.exists(p):
+                io["via_save"] = {"err": "no file was written"}
+            else:
+                with common.quiet():
+                    b2 = emdfile.read(p, emdpath=f"{obj.name}_root/{obj.name}", tree=False)
+                if case["kind"] == "pl":
+                    io["via_save"] = pl_obs(b2)
+                else:
+                    io["via_save"] = {"dtype": dtype_tok(b2.dtype), "rows": int(b2.shape[0]), "cols": int(b2.shape[1]),
+                                      "cells": [cell_token(b2[i, j].data) for i in range(b2.shape[0]) for j in range(b2.shape[1])]}
+        except Exception as e:
+            io["via_save"] = alpha.exc_kind(e)
+        finally:
+            obj._root = None
+            if os.path.exists(p):
+                os.remove(p)
     mo = None
     if drv is not None:
         mo = drv.ask(req)
         if isinstance(mo.get("back"), dict) and "fields" in mo["back"]:
             mo["back"]["fields"] = sorted(mo["back"]["fields"])
         mo["src"] = src
+        if "via_save" in io:
+            mo["via_save"] = mo.get("back")      # the model's save / read of a single node is its codec (C01 / C07)
     for o in (io, mo):
         if o is not None and isinstance(o.get("body"), list):
             o["body"] = sorted(o["body"], key=lambda e: e[0])
@@ -134,6 +160,8 @@ def oracle(case, obs):
         return {"read_failed": obs["back"]}
     if obs["back"] != obs["src"]:
         return {"saved": obs["src"], "read": obs["back"]}
+    if "via_save" in obs and obs["via_save"] != obs["src"]:
+        return {"through_save_and_read": True, "saved": obs["src"], "read": obs["via_save"]}
     return None
 
 
